@@ -256,25 +256,12 @@ def run(ctx, rep):
     from .. import miniinterp as MIp
     fhp = ctx.func(SRV + ".ThreadPoolServer._handle_poll_result")
     rep.analysed(fhp)
+    # the poll wrapper is interpreted on one flag bit at a time: which letter it reports for which bit, and which bits it requests
+    # for the mode the server registers its clients with
     pp = ctx.repo.classes.get("rpyc.lib.compat.PollingPoll")
-    letters = {}
-    reg = {}
-    if pp is not None and "poll" in pp.methods and "register" in pp.methods:
-        for n in A.walk(pp.methods["poll"].node):
-            if isinstance(n, ast.If) and isinstance(n.test, ast.BinOp) and isinstance(n.test.op, ast.BitAnd):
-                for st_ in n.body:
-                    if isinstance(st_, ast.AugAssign) and isinstance(st_.value, ast.Constant) and isinstance(st_.value.value, str):
-                        letters[st_.value.value] = {x.attr if isinstance(x, ast.Attribute) else x.id for x in ast.walk(n.test.right)
-                                                    if isinstance(x, (ast.Attribute, ast.Name)) and (
-                                                        x.attr if isinstance(x, ast.Attribute) else x.id).startswith("POLL")}
-        for n in A.walk(pp.methods["register"].node):
-            if isinstance(n, ast.If) and isinstance(n.test, ast.Compare) and isinstance(n.test.left, ast.Constant):
-                fl = set()
-                for st_ in n.body:
-                    if isinstance(st_, ast.AugAssign):
-                        fl |= {x.attr if isinstance(x, ast.Attribute) else x.id for x in ast.walk(st_.value)
-                               if isinstance(x, (ast.Attribute, ast.Name)) and (x.attr if isinstance(x, ast.Attribute) else x.id).startswith("POLL")}
-                reg[n.test.left.value] = fl
+    BITS = {"POLLIN": 1, "POLLPRI": 2, "POLLOUT": 4, "POLLERR": 8, "POLLHUP": 16, "POLLNVAL": 32, "POLLRDHUP": 0x2000}
+    letters = {}      # letter -> set of bit names that produce it
+    reg = {}          # mode letter -> set of bit names requested
     modes = set()
     for m_ in ctx.cls(SRV + ".ThreadPoolServer").methods.values():
         for c_ in A.calls(m_.node):
@@ -282,6 +269,45 @@ def run(ctx, rep):
                 mv = ctx.try_fold(c_.args[1])
                 if isinstance(mv, str):
                     modes.add(mv)
+    if pp is not None and "poll" in pp.methods and "register" in pp.methods:
+        cmod = pp.module
+        vals_ = {"select_module." + k_: v_ for k_, v_ in BITS.items() if k_ != "POLLRDHUP"}
+        vals_.update({"select." + k_: v_ for k_, v_ in BITS.items() if k_ != "POLLRDHUP"})
+        meths_ = {n_: m_.node for n_, m_ in pp.methods.items()}
+        extra_p = {"__values__": vals_, "__methods__": meths_, "__max_iter__": 200}
+
+        def glook(name, extra_p=extra_p, cmod=cmod):
+            # class-level and module-level tables/constants of the wrapper, evaluated with the model's flag values
+            for scope in (pp.attrs, ):
+                if name in scope:
+                    return True, MIp.eval_expr(scope[name], extra_p)
+            if name in cmod.toplevel:
+                return True, MIp.eval_expr(cmod.toplevel[name][-1], extra_p)
+            return False, None
+        extra_p["__global_lookup__"] = glook
+        cls_state = {}
+        for an_, av_ in pp.attrs.items():
+            try:
+                cls_state[an_] = MIp.eval_expr(av_, extra_p)
+            except (AnalysisError, MIp.Raised):
+                pass
+        try:
+            for bname, bit in BITS.items():
+                evs = [(7, bit)]
+                st_ = dict(cls_state)
+                got = MIp.call_method(meths_["poll"], st_, [None], dict(extra_p, __calls__={"self._poll.poll": lambda t=None, evs=evs: evs}))
+                mask = dict(got).get(7, "") if isinstance(got, list) else ""
+                for ch in mask:
+                    letters.setdefault(ch, set()).add(bname)
+            for mode_ in sorted(modes) + ["r", "w", "e", "h"]:
+                for ch in mode_:
+                    if ch in reg:
+                        continue
+                    asked = []
+                    MIp.call_method(meths_["register"], dict(cls_state), [7, ch], dict(extra_p, __calls__={"self._poll.register": lambda fd, fl, asked=asked: asked.append(fl)}))
+                    reg[ch] = {bn for bn, bv in BITS.items() if asked and asked[0] & bv}
+        except (AnalysisError, MIp.Raised) as e_:
+            rep.undecided("R16.2", "the poll wrapper (PollingPoll)", str(e_))
     rep.floor("R16.2", "flag letters the poll wrapper can report", len(letters), 4)
     rep.floor("R16.2", "poll registrations of client descriptors", len(modes), 1)
     always = {"POLLERR", "POLLHUP", "POLLNVAL"}
